@@ -13,6 +13,7 @@ import ActsModel.Driver.Progress
 import ActsModel.Driver.Ref
 import ActsModel.Driver.Hier
 import ActsModel.Driver.Catch
+import ActsModel.Driver.Stream
 open Lean Acts.Driver
 
 def dispatch (req : Lean.Json) : Lean.Json :=
@@ -34,6 +35,7 @@ def dispatch (req : Lean.Json) : Lean.Json :=
   | "ref.eval" => refCase req
   | "c03.monitor" => hierCase req
   | "c06.bubble" => bubbleCase req
+  | "c08.monitor" => streamCase req
   | "ping" => Lean.Json.mkObj [("pong", Lean.Json.bool true)]
   | c => Lean.Json.mkObj [("error", Lean.Json.str s!"unknown cmd {c}")]
 
